@@ -453,6 +453,20 @@ def run(prog: Program, rep: Report, tier: str):
     rets_af = P.returns(P.paths_of(prog, af))
     norm = bool(rets_af) and all(normalises(r) for _, r in rets_af)
     rep.check(norm, "R15.2", af.qualname, af.loc, "args() normalises TypeVars on every path", "args() returns raw TypeVars", detail="args-normalise")
+    # the bound of a TypeVar may be a reference (bound="Node"): where members are evaluated, they are normalised *first*
+    is_norm = lambda s: T.is_call_to(s, f"{C.INSP}._normalize_typevars", f"{C.INSP}.normalize_typevar")  # noqa: E731
+    is_eval = lambda s: T.is_call_to(s, "typelib.py.refs.evaluate")  # noqa: E731
+    late = False
+    seen_eval = False
+    for p, r in rets_af:
+        if not T.contains(r, is_eval):
+            continue
+        seen_eval = True
+        for x in T.walk(r):
+            if is_norm(x) and any(T.contains(a, is_eval) for a in x[2]):
+                late = True
+    if seen_eval:
+        rep.check(not late, "R15.2", af.qualname, af.loc, "type variables are normalised before the members are evaluated", "args(evaluate=True) evaluates the members first and normalises type variables afterwards: a TypeVar whose bound is given as a string (TypeVar('TNode', bound='Node')) is replaced by the *unevaluated* reference, which the context refuses as a key -- marshaller / unmarshaller / codec of list[TNode] raise KeyError: ForwardRef('Node')", detail="normalise-before-evaluate")
     # unannotated constructor parameters are hinted Any (=> pass-through), whatever their default
     hs = prog.function(f"{C.INSP}._hints_from_signature")
     ok = True
